@@ -8,14 +8,38 @@ import json
 from .. import cli
 
 
-def run(pid, corpus_mod, tier, seed, level="translation_validation", extra_assumptions=()):
+def run(pid, corpus_mod, tier, seed, level="translation_validation", extra_assumptions=(), crosshair=(), extra=None):
+    """crosshair: harness groups (pv/ch/<group>.py) whose conditions also belong to this
+    property; extra: callable(cfg) -> (violations, n_checked, coverage_dict)"""
+    import time
+
+    t0 = time.time()
     cfg, tps, results, wall = cli.run_e1(pid, corpus_mod, tier, seed)
     coverage, viols, harness = cli.summarise_e1(pid, cfg, tps, results, wall)
     coverage["corpus"] = corpus_mod
-    return cli.emit(
-        pid, tier, seed, level, coverage, cli.e1_violations(viols, pid), wall,
-        list(cli.E1_ASSUMPTIONS) + list(extra_assumptions), harness,
-    )  # fmt: skip
+    v = cli.e1_violations(viols, pid)
+    assumptions = list(cli.E1_ASSUMPTIONS) + list(extra_assumptions)
+    if crosshair:
+        from ..ch import runner
+
+        coverage["crosshair"] = []
+        for group in crosshair:
+            r = runner.run_harnesses(group, tier, seed)
+            v += r["violations"]
+            harness = list(harness) + r["harness_faults"]
+            coverage["crosshair"].append(r["coverage"])
+            coverage["obligations"] += r["paths_or_conditions"]
+            coverage["discharged"] += r["confirmed"]
+            coverage["inconclusive"] += r["inconclusive"]
+            for a in r["assumptions"]:
+                if a not in assumptions:
+                    assumptions.append(a)
+    if extra is not None:
+        v2, n, cov2 = extra(cfg)
+        v += v2
+        coverage["structural_obligations"] += n
+        coverage.update(cov2)
+    return cli.emit(pid, tier, seed, level, coverage, v, time.time() - t0, assumptions, harness)
 
 
 def replay(pid, corpus_mod, path):
@@ -25,6 +49,10 @@ def replay(pid, corpus_mod, path):
     with open(path) as f:
         rec = json.load(f)
     payload = rec["payload"]
+    if "harness" in payload:
+        from ..ch import runner
+
+        return runner.replay_violation(path)
     mod = importlib.import_module(corpus_mod)
     tps = {t.name: t for t in mod.templates(Cfg.for_tier("thorough"))}
     tps.update({t.name: t for t in mod.templates(Cfg.for_tier("quick"))})
